@@ -33,6 +33,8 @@ func c06Extra() []Cmd {
 		{Command: "unzip a.zip", Description: "Extract a zip archive", Keywords: []string{"extract", "unzip", "archive"}},
 		{Command: "apt install pkg", Description: "Install and setup a package, manage and modify the system", Keywords: []string{"install", "setup", "add", "manage", "configure", "control"}},
 		{Command: "mkdir dir", Description: "Create directories make build", Keywords: []string{"create", "make", "build", "directory"}},
+		// found through one word only (a word with a letter that has a second capital form, U+212A for k)
+		{Command: "sysctl -a", Description: "Kernel parameters", Keywords: []string{"kernel"}},
 	}
 }
 
@@ -276,7 +278,8 @@ func c06Run(c *lib.Ctx) {
 	// words the index knows, spelt with the second capital form of a letter (U+212A KELVIN SIGN lower-cases
 	// to k) and glued to a neighbour by '.', '-' or '/', alone and in queries long enough to use up the
 	// enhancement budget: whatever the analysis does to such a word, the user's own term must survive
-	qs = append(qs, "networ\u212a.interface", "ma\u212ae-build", "pac\u212aage/setup", "\u212aeep.files", "loo\u212a networ\u212a",
+	qs = append(qs, "\u212aernel", "\u212aernel.log", "\u212aernel-x", "pac\u212aage.interface", "networ\u212a.setup", "\u212aernel.log find files folder git install manage show", "find files folder git install manage show directory \u212aernel.log",
+		"networ\u212a.interface", "ma\u212ae-build", "pac\u212aage/setup", "\u212aeep.files", "loo\u212a networ\u212a",
 		"networ\u212a find files folder git install manage show directory", "find files folder git install manage show directory ma\u212ae", "ma\u212ae.build compress files folder git install manage show")
 	dbsC := c06DBs()
 	dbs := make([]*database.Database, len(dbsC))
